@@ -28,6 +28,7 @@ ASSUMPTIONS = [
     "reference = dense Gaussian conditioning on an MA representation truncated at 200 pre-sample periods (first-order simulate() is judged by C01)",
     "cases whose joint covariance of the observed cells has condition number > 1e8 are not judged (singular prediction-error covariance is outside the property)",
     "the initial distribution uses the assigned constant stds also when stds_from_data=True (as the implementation documents: time-varying values apply to the in-sample periods)",
+    "absolute tolerance floors scale with the prior standard deviation of the quantity (1e-7 x for means, 1e-8 x variance for variances): smoothed variances that are exactly zero come back as cancellation noise whose size depends on the BLAS build",
     "predict_mse_obs is compared only when rescale_variance=False",
     "unit-root models / diffuse initialisation are not generated in this check",
 ]
@@ -172,13 +173,14 @@ def _check(case):
                 row = joint.row(t, nm_)
                 g = tr(_val(med, name_med(nm_), start, t))
                 e = cj.mean_of_row(row)
-                col.check(_close(g, e, RT_MEAN, 1e-8), f"{step}_med:transition",
+                psd = math.sqrt(max(none.var_of_row(row), 0.0))      # prior std: the scale of rounding noise
+                col.check(_close(g, e, RT_MEAN, 1e-7 * max(1.0, psd, abs(joint.mean[row]))), f"{step}_med:transition",
                           lambda: f"{step}_med[{nm_}] t={t}: {g!r} expected {e!r}\n{lm.source(spec)}")
                 gs = _val(std, name_std(nm_), start, t)
                 ev_ = max(cj.var_of_row(row), 0.0) * v
                 es = math.sqrt(ev_)
                 # compared as variances: a zero variance comes back as the square root of rounding noise
-                vtol = 2 * RT_STD * ev_ + 1e-10 * max(1.0, none.var_of_row(row) * v)
+                vtol = 2 * RT_STD * ev_ + 1e-8 * max(1.0, none.var_of_row(row) * v)
                 col.check(not math.isnan(gs) and abs(gs * gs - ev_) <= vtol, f"{step}_std:transition",
                           lambda: f"{step}_std[{nm_}] t={t}: {gs!r} expected {es!r}\n{lm.source(spec)}")
             if step == "predict":
@@ -194,7 +196,7 @@ def _check(case):
                     c_ = joint.u_col(s, t) if s in shocks_u else joint.w_col(s, t)
                     g = _val(med, s, start, t)
                     e = cj.mean_of_e(c_)
-                    col.check(_close(g, e, RT_MEAN, 1e-8), f"{step}_med:shock",
+                    col.check(_close(g, e, RT_MEAN, 1e-7 * max(1.0, math.sqrt(joint.d[c_]))), f"{step}_med:shock",
                               lambda: f"{step}_med[{s}] t={t}: {g!r} expected {e!r}\n{lm.source(spec)}")
         # measurement variables: prediction, prediction error, prediction MSE
         obs_k = [k for k in range(nm) if not math.isnan(lin[t, k])]
@@ -204,7 +206,7 @@ def _check(case):
             pe = _val(out["predict_err"], f"log({mn[k]})" if log else mn[k], start, t)
             if k in obs_k:
                 e = cpred.mean_of_row(row)
-                col.check(_close(g, e, RT_MEAN, 1e-8), "predict_med:measurement", lambda: f"predict_med[{mn[k]}] t={t}: {g!r} expected {e!r}")
+                col.check(_close(g, e, RT_MEAN, 1e-7 * max(1.0, abs(e))), "predict_med:measurement", lambda: f"predict_med[{mn[k]}] t={t}: {g!r} expected {e!r}")
                 col.check(_close(pe, lin[t, k] - e, 1e-6, 1e-8), "predict_err", lambda: f"predict_err[{mn[k]}] t={t}: {pe!r} expected {lin[t, k] - e!r}")
                 for step in ("update", "smooth"):
                     gu = tr(_val(out[f"{step}_med"], mn[k], start, t))
